@@ -99,6 +99,7 @@ OPS = [
   ("pair_reversed_before", "*", dup_entry("Pair", rev, pick=NOT_SELF, where="before")),
   ("pair_whitespace_variant", "*", dup_entry("Pair", ws)),
   ("pair_reversed_whitespace_variant", "*", dup_entry("Pair", lambda k, rng: ws(rev(k, rng), rng), pick=NOT_SELF)),
+  ("pair_reversed_labels_differ_only_in_case", "*", lambda items, info, rng: (lambda A: (bm.sec(items, "Pair")[1].extend([["%s-%s" % (A, A.upper()), "as.constant 1.0"], ["%s-%s" % (A.upper(), A), SECOND]]), (items, "%s-%s" % (A, A.upper()), "%s-%s" % (A.upper(), A)))[1])(info["species"][0] if info["species"][0].upper() != info["species"][0] else info["species"][0] + "x")),
   ("embed_same_key_twice", "eam fs adp", dup_entry("EAM-Embed", SAME)),
   ("density_same_key_twice", "eam adp", dup_entry("EAM-Density", SAME)),
   ("fs_density_same_key_twice", "fs", dup_entry("EAM-Density", SAME)),
@@ -112,7 +113,7 @@ OPS = [
   ("table_form_space_before_bracket", "*", dup_table(lambda n, rng: "Table-Form:%s " % n)),
   ("table_form_space_before_colon", "*", dup_table(lambda n, rng: "Table-Form :%s" % n)),
   ("table_form_named_like_custom_form", "*", table_named(lambda rng: rng.choice(["cf", "other"]))),
-  ("table_form_named_like_builtin", "*", table_named(lambda rng: rng.choice(["as.bornmayer", "as.morse", "as.constant"]))),
+  ("table_form_named_like_builtin", "*", table_named(lambda rng: rng.choice(["as.bornmayer", "as.morse", "as.constant", "as.buck4", "as.buck4"]))),
   ("custom_form_named_like_table_form", "*", lambda items, info, rng: (bm.sec(items, "Potential-Form")[1].append(["tbl(r)", "777.0 + 0*r"]), (items, "tbl", "tbl(r)"))[1]),
   ("adp_dipole_same_key_twice", "adp", dup_entry("EAM-ADP-Dipole", SAME)),
   ("adp_dipole_reversed", "adp", dup_entry("EAM-ADP-Dipole", rev, pick=NOT_SELF)),
